@@ -11,6 +11,7 @@ pub mod assets;
 pub mod tirj;
 pub mod ctx;
 pub mod staging;
+pub mod wire;
 
 thread_local! {
     static LAST_PANIC: RefCell<Option<(String, String)>> = RefCell::new(None);
@@ -61,6 +62,7 @@ fn dispatch(case: &Value) -> Value {
     match cmd {
         "assets" => assets::run(case),
         "staging" => staging::run(case),
+        "wire" => wire::run(case),
         "ping" => json!({"pong": true}),
         other => json!({"tool_error": format!("unknown cmd {other}")}),
     }
